@@ -526,34 +526,50 @@ def run_once(src, marker, g):
         ins = {i.offset: i for i in dis.get_instructions(co)}
         for (c, off) in executed:
             if c is co and off in ins and ins[off].opname in ("STORE_NAME", "STORE_GLOBAL", "STORE_FAST", "STORE_DEREF"):
-                stores.add((ins[off].argval, ins[off].positions.lineno))
+                stores.add((ins[off].argval, ins[off].positions.lineno, ins[off].positions.col_offset))
     return dict(ne=ne, ae=ae, local_ne=local_ne, outcome=outcome, all_read=all_read, early=st["early"],
                 other_raised=other[0] or outcome.startswith("Other"),
-                stores=sorted([n, l] for n, l in stores if l is not None))
+                stores=sorted([n, l, c] for n, l, c in stores if l is not None))
 
 
 def binding_sites(src, name):
-    """[lo, hi] line ranges of the statements that bind `name` (assignment/for/with/import/def/class/except-as)."""
+    """statements that bind `name` in a module / class / function scope (comprehension variables are not bindings of
+    the enclosing scope): ("name", line, col) for assignment-like targets, ("stmt", lo, hi) for import/def/class/except-as."""
+    tree = ast.parse(src)
+    comp_targets = set()
+    for n in ast.walk(tree):
+        if isinstance(n, ast.comprehension):
+            for m in ast.walk(n.target):
+                if isinstance(m, ast.Name):
+                    comp_targets.add((m.lineno, m.col_offset))
     out = set()
-    for n in ast.walk(ast.parse(src)):
+    for n in ast.walk(tree):
         if isinstance(n, ast.Name) and isinstance(n.ctx, ast.Store) and n.id == name:
-            out.add((n.lineno, n.lineno))
+            if (n.lineno, n.col_offset) not in comp_targets:
+                out.add(("name", n.lineno, n.col_offset))
         elif isinstance(n, (ast.FunctionDef, ast.ClassDef)) and n.name == name:
             lo = min([n.lineno] + [d.lineno for d in n.decorator_list])
-            out.add((lo, n.lineno))
+            out.add(("stmt", lo, n.lineno))
         elif isinstance(n, ast.ExceptHandler) and n.name == name:
-            out.add((n.lineno, n.lineno))
+            out.add(("stmt", n.lineno, n.lineno))
         elif isinstance(n, (ast.Import, ast.ImportFrom)):
             for a in n.names:
                 if (a.asname or a.name.split(".")[0]) == name:
-                    out.add((n.lineno, n.lineno))
-    return sorted(out)
+                    out.add(("stmt", n.lineno, n.lineno))
+    return sorted(out), comp_targets
 
 
 def unexecuted_binding(src, name, stores):
     """some statement binding `name` exists whose store instruction the run never executed"""
-    done = [l for n, l in stores if n == name]
-    return any(not any(lo <= l <= hi for l in done) for lo, hi in binding_sites(src, name))
+    sites, comp_targets = binding_sites(src, name)
+    done = [(l, c) for n, l, c in stores if n == name and (l, c) not in comp_targets]
+    for kind, x, y in sites:
+        if kind == "name":
+            if (x, y) not in done:
+                return True
+        elif not any(x <= l <= y for l, c in done):
+            return True
+    return False
 
 
 def reference(src, marker, nsspec, loaded, max_runs=10):
